@@ -186,17 +186,15 @@ def answer (ws : List String) : String :=
       | some c => ((k.post.get c).map (·.allocs)).getD []
       | none => []
     -- through the RPC layer: the generated table of rpc_api.go decides which Cluster operation runs
-    let outRpc : Option Out := match k.rpc with
-      | some call => rpcStepF Gen.rpcTable k.cfg k.pre call chosen k.fault
-      | none => some (stepF k.cfg k.pre k.op chosen k.fault)
-    -- round 8b: without a fault the Cluster operation is RUN from the regenerated statement sequences of cluster.go
-    -- (Gen.semProgs: constructors, guards, early returns in source order); a statement of unknown shape = no answer = diff
     let semOp : Option Op := match k.rpc with
       | some call => rpcOp Gen.rpcTable call
       | none => some k.op
-    let outRpc : Option Out := match k.fault, semOp with
-      | none, some op => Sem.stepSem Gen.semProgs k.cfg k.pre op chosen
-      | _, _ => outRpc
+    -- round 8b/8d: the Cluster operation is RUN from the regenerated statement sequences of cluster.go (Gen.semProgs:
+    -- constructors, guards, early returns in source order); with a `!k` fault the k-th consensus call those sequences
+    -- issue fails (Sem.stepSemF). A statement of unknown shape / an unknown RPC table entry = no answer = diff
+    let outRpc : Option Out := match semOp with
+      | some op => Sem.stepSemF Gen.semProgs k.cfg k.pre op chosen k.fault
+      | none => none
     let out := outRpc.getD (err k.pre)
     let reached := match k.fault with
       | some f => if f < (step k.cfg k.pre k.op chosen).log.length then "-fault" ++ toString f else ""
